@@ -354,7 +354,33 @@ def check_random(spec):
         problems.append(Problem("C10/random/roundtrip", "A->B->A is not the identity"))
     if rev != vec:
         problems.append(Problem("C10/random/reverse", "reverse=True is not the inverse"))
+    problems += check_applied(spec, shells, a, b, segs, nbasis, ref, MolecularBasis)
     return problems
+
+
+def check_applied(spec, shells, a, b, segs, nbasis, ref, MolecularBasis):
+    """The conversion as *applied* by the library's own consumer (the overlap code, listed among
+    the property's files): overlap matrices of one basis in conventions A and B are related by the
+    reference signed permutation.  Small bases only (cost)."""
+    if nbasis > 40 or max(seg[0] for seg in segs) > 4:
+        return []
+    try:
+        from iodata.overlap import compute_overlap
+    except Exception:  # noqa: BLE001
+        return []
+    centers = np.array([[0.0, 0.0, 0.0], [0.3, -0.9, 1.1], [-1.2, 0.4, 0.7]])
+    try:
+        sa = compute_overlap(MolecularBasis(shells, a, "L2"), centers)
+        sb = compute_overlap(MolecularBasis(shells, b, "L2"), centers)
+    except Exception as exc:  # noqa: BLE001
+        return [Problem("C10/applied/exception", f"compute_overlap raised {exc!r}")]
+    tagged = ref(a, b, [i + 1 for i in range(nbasis)])  # +-(source index + 1) at each target position
+    src = np.array([abs(t) - 1 for t in tagged])
+    sgn = np.array([1.0 if t > 0 else -1.0 for t in tagged])
+    want = sgn[:, None] * sgn[None, :] * sa[np.ix_(src, src)]
+    if sb.shape != want.shape or np.abs(sb - want).max() > 1e-10 * (1 + np.abs(want).max()):
+        return [Problem("C10/applied/overlap", "overlap matrices in conventions A and B are not related by the signed permutation")]
+    return []
 
 
 def body_random(spec):
